@@ -34,8 +34,11 @@ def u32():
 
 
 def values():
-    return st.one_of(st.sampled_from([0, 1, 546, 1000, 0xffffffff, 0x100000000, 2100000000000000]),
-                     st.integers(0, 2100000000000000))
+    # (the field is 8 bytes wide: amounts above the 21 million coin limit are not valid money but still have to
+    # survive parsing and re-serialisation)
+    return st.one_of(st.sampled_from([0, 1, 546, 1000, 0xffffffff, 0x100000000, 2100000000000000, 1 << 56,
+                                      (1 << 56) + 1, (1 << 63) - 1]),
+                     st.integers(0, 2100000000000000), st.integers(0, 2100000000000000))
 
 
 _PUBS = [ec.ser_compressed(ec.pubkey(d)) for d in (1, 2, 3, 0x1234567)]
